@@ -199,7 +199,8 @@ Proof.
   induction fuel as [|f IH]; intros t lo hi ctr res info ctr' Hwf Hk Hbk Hnin Hok Hh E; [lia|].
   destruct t as [l|id ver keys ch]; cbn [bt_put bt_find_leaf] in *.
   - destruct (leaf_put l k lv ctr) as [r0 info0] eqn:El. injection E as <- <- <-.
-    exists l, [], [], r0. cbn [bt_leaves app]. rewrite app_nil_r. repeat split; reflexivity.
+    exists l, [], [], r0. cbn [bt_leaves app]. rewrite app_nil_r.
+    split; [reflexivity|]. split; [reflexivity|]. split; [exact El|reflexivity].
   - apply WF_int_iff in Hwf. destruct Hwf as [Hn Hkids].
     destruct (kids_route lo hi keys ch k Hkids Hk) as (Hi & Hbi & _).
     specialize (Hbi Hbk). set (i := route keys k 0) in *.
@@ -251,3 +252,429 @@ Proof.
   - repeat split; try assumption.
     cbn [bt_leaves flat_map]. rewrite app_nil_r. exact HR.
 Qed.
+
+(** ** 4. Leaf ids and version lookup *)
+
+Lemma leaf_ids_incl t i : In i (leaf_ids t) -> In i (bt_ids t).
+Proof.
+  unfold leaf_ids. intros H. apply in_map_iff in H. destruct H as (l & <- & H).
+  apply bt_leaves_ids_incl. exact H.
+Qed.
+
+Lemma leaf_ids_NoDup t : NoDup (bt_ids t) -> NoDup (leaf_ids t).
+Proof.
+  induction t as [l|id ver keys ch IH] using bt_ind'.
+  - intros _. cbn. constructor; [intros []|constructor].
+  - rewrite leaf_ids_int. cbn [bt_ids]. intros H. apply NoDup_cons_iff in H. destruct H as [_ H].
+    induction ch as [|c ch IHch]; [constructor|].
+    cbn [flat_map] in *. apply Forall_cons_iff in IH. destruct IH as [IHc IHr].
+    apply NoDup_app_inv in H. destruct H as (H1 & H2 & H3).
+    apply NoDup_app_intro; [apply IHc; exact H1|apply IHch; assumption|].
+    intros x X1 X2. apply (H3 x); [apply leaf_ids_incl; exact X1|].
+    apply in_flat_map in X2. destruct X2 as (c0 & Hc0 & X2). apply in_flat_map.
+    exists c0. split; [exact Hc0|apply leaf_ids_incl; exact X2].
+Qed.
+
+Lemma leaf_versions_ids t : map fst (leaf_versions t) = leaf_ids t.
+Proof. unfold leaf_versions, leaf_ids. rewrite map_map. reflexivity. Qed.
+
+Lemma find_ver_spec (ls : list leaf) i v :
+  NoDup (map lf_id ls) ->
+  (option_map lf_ver (find (fun l => N.eqb (lf_id l) i) ls) = Some v <->
+   In (i, v) (map (fun l => (lf_id l, lf_ver l)) ls)).
+Proof.
+  induction ls as [|a ls IH]; intros Hnd; cbn [find map In option_map].
+  - split; [discriminate|intros []].
+  - cbn [map] in Hnd. apply NoDup_cons_iff in Hnd. destruct Hnd as [Hna Hnd].
+    destruct (N.eqb_spec (lf_id a) i) as [E|NE].
+    + cbn [option_map]. split.
+      * intros H. injection H as <-. left. rewrite E. reflexivity.
+      * intros [H|H]; [injection H as _ <-; reflexivity|].
+        exfalso. apply Hna. apply in_map_iff in H. destruct H as (l & H & Hl).
+        injection H as H1 H2. rewrite E, <- H1. apply in_map. exact Hl.
+    + rewrite (IH Hnd). split; [intros H; right; exact H|].
+      intros [H|H]; [injection H as H _; contradiction|exact H].
+Qed.
+
+(** [leaf_ver_of] is the lookup in [leaf_versions] *)
+Lemma leaf_ver_of_spec t i v :
+  NoDup (leaf_ids t) -> (leaf_ver_of t i = Some v <-> In (i, v) (leaf_versions t)).
+Proof. apply find_ver_spec. Qed.
+
+Lemma leaf_ver_of_leaf t l :
+  NoDup (leaf_ids t) -> In l (bt_leaves t) -> leaf_ver_of t (lf_id l) = Some (lf_ver l).
+Proof.
+  intros Hnd H. apply leaf_ver_of_spec; [exact Hnd|].
+  unfold leaf_versions. apply (in_map (fun l => (lf_id l, lf_ver l))). exact H.
+Qed.
+
+(** ** 5. C12 for an insert into one layer *)
+
+(** the complete picture: the new leaf sequence is the old one with the reached
+    leaf [lm] replaced by [lm'] (same id, insert counter moved) and, exactly when
+    [lm] was full, followed by the new leaf [cnew] with id [pi_created info = ctr] *)
+Theorem c12_created_iff_split root k lv ctr root' info ctr' :
+  WF_layer root -> kt_wf k = true -> ~ In k (bt_keys root) ->
+  entry_ok {| sl_key := k; sl_lv := lv |} ->
+  (forall i, In i (bt_ids root) -> (i < ctr)%N) ->
+  layer_put root k lv ctr = Some (root', info, ctr') ->
+  exists lm lm' A B,
+    find_leaf root k = Some lm /\ bt_leaves root = A ++ lm :: B /\
+    lf_id lm = pi_modified info /\ lf_id lm' = lf_id lm /\
+    get_vinsert_delete (lf_ver lm') <> get_vinsert_delete (lf_ver lm) /\
+    ((exists c, pi_created info = Some c) <-> leaf_cnk lm = 15%N) /\
+    match pi_created info with
+    | None =>
+      leaf_cnk lm <> 15%N /\ bt_leaves root' = A ++ lm' :: B /\
+      (get_splitting (lf_ver lm) = false -> get_vsplit (lf_ver lm') = get_vsplit (lf_ver lm))
+    | Some c =>
+      leaf_cnk lm = 15%N /\ c = ctr /\ ~ In c (leaf_ids root) /\ In c (leaf_ids root') /\
+      get_vsplit (lf_ver lm') <> get_vsplit (lf_ver lm) /\
+      exists cnew, lf_id cnew = c /\ lf_ver cnew = lf_ver lm' /\
+                   bt_leaves root' = A ++ lm' :: cnew :: B
+    end.
+Proof.
+  intros Hwfl Hk Hnin Hok Hctr E.
+  destruct (layer_put_leaves root k lv ctr root' info ctr' Hwfl Hk Hnin Hok E)
+    as (lm & A & B & r0 & F & HL & ELP & HR).
+  destruct (leaf_put_report lm k lv ctr)
+    as [(N15 & l' & E1 & Hid & Hv & Hvs)|(E15 & L & sep & R & E1 & HidL & HidR & HvR & Hv & Hvs)];
+    rewrite E1 in ELP; injection ELP as <- <-;
+    cbn [pi_modified pi_created ires_leaves bt_leaves app] in *.
+  - exists lm, l', A, B.
+    split; [exact F|]. split; [exact HL|]. split; [reflexivity|]. split; [exact Hid|].
+    split; [exact Hv|]. split.
+    { split; [intros [c X]; discriminate|intros X; contradiction]. }
+    split; [exact N15|]. split; [exact HR|exact Hvs].
+  - exists lm, L, A, B.
+    split; [exact F|]. split; [exact HL|]. split; [reflexivity|]. split; [exact HidL|].
+    split; [exact Hv|]. split.
+    { split; [intros _; exact E15|intros _; eexists; reflexivity]. }
+    split; [exact E15|]. split; [reflexivity|]. split.
+    { intros X. apply leaf_ids_incl in X. apply Hctr in X. lia. }
+    split.
+    { unfold leaf_ids. rewrite HR, map_app. apply in_or_app. right. cbn [map]. right. left. exact HidR. }
+    split; [exact Hvs|].
+    exists R. split; [exact HidR|]. split; [exact HvR|exact HR].
+Qed.
+
+(** every border node other than the reported modified one is carried over
+    unchanged: same id, same version word, same contents *)
+Theorem c12_other_leaves_unchanged root k lv ctr root' info ctr' :
+  WF_layer root -> kt_wf k = true -> ~ In k (bt_keys root) ->
+  entry_ok {| sl_key := k; sl_lv := lv |} ->
+  (forall i, In i (bt_ids root) -> (i < ctr)%N) ->
+  layer_put root k lv ctr = Some (root', info, ctr') ->
+  forall l, In l (bt_leaves root) -> lf_id l <> pi_modified info ->
+            In l (bt_leaves root') /\ In (lf_id l, lf_ver l) (leaf_versions root').
+Proof.
+  intros Hwfl Hk Hnin Hok Hctr E l Hl Hne.
+  destruct (c12_created_iff_split root k lv ctr root' info ctr' Hwfl Hk Hnin Hok Hctr E)
+    as (lm & lm' & A & B & F & HL & Hm & Hid & Hv & Hiff & Hc).
+  assert (In l (bt_leaves root')) as Hin.
+  { rewrite HL in Hl. apply in_app_or in Hl.
+    assert (In l A \/ In l B) as Hl'.
+    { destruct Hl as [Hl|[Hl|Hl]]; [left; exact Hl| |right; exact Hl].
+      exfalso. apply Hne. rewrite <- Hl. exact Hm. }
+    destruct (pi_created info) as [c|].
+    - destruct Hc as (_ & _ & _ & _ & _ & cnew & _ & _ & ->).
+      apply in_or_app. destruct Hl' as [X|X]; [left; exact X|right; right; right; exact X].
+    - destruct Hc as (_ & -> & _).
+      apply in_or_app. destruct Hl' as [X|X]; [left; exact X|right; right; exact X]. }
+  split; [exact Hin|].
+  unfold leaf_versions. apply (in_map (fun l => (lf_id l, lf_ver l))). exact Hin.
+Qed.
+
+(** the reported modified node is the border reached by the key, and its
+    version word changed (its insert counter moved) *)
+Theorem c12_modified_changes root k lv ctr root' info ctr' :
+  WF_layer root -> kt_wf k = true -> ~ In k (bt_keys root) ->
+  entry_ok {| sl_key := k; sl_lv := lv |} ->
+  (forall i, In i (bt_ids root) -> (i < ctr)%N) ->
+  layer_put root k lv ctr = Some (root', info, ctr') ->
+  exists lm lm',
+    find_leaf root k = Some lm /\ In lm (bt_leaves root) /\ lf_id lm = pi_modified info /\
+    In lm' (bt_leaves root') /\ lf_id lm' = pi_modified info /\
+    lf_ver lm' <> lf_ver lm /\
+    get_vinsert_delete (lf_ver lm') <> get_vinsert_delete (lf_ver lm).
+Proof.
+  intros Hwfl Hk Hnin Hok Hctr E.
+  destruct (c12_created_iff_split root k lv ctr root' info ctr' Hwfl Hk Hnin Hok Hctr E)
+    as (lm & lm' & A & B & F & HL & Hm & Hid & Hv & Hiff & Hc).
+  exists lm, lm'. split; [exact F|]. split.
+  { rewrite HL. apply in_or_app. right. left. reflexivity. }
+  split; [exact Hm|]. split.
+  { destruct (pi_created info) as [c|].
+    - destruct Hc as (_ & _ & _ & _ & _ & cnew & _ & _ & ->). apply in_or_app. right. left. reflexivity.
+    - destruct Hc as (_ & -> & _). apply in_or_app. right. left. reflexivity. }
+  split; [rewrite Hid; exact Hm|]. split; [|exact Hv].
+  intros X. apply Hv. rewrite X. reflexivity.
+Qed.
+
+(** the exact statement: among the border nodes of the old tree, the one whose
+    version word differs after the call is precisely [pi_modified info]; the
+    border nodes of the new tree that are not border nodes of the old tree are
+    precisely [pi_created info] (none, or the one new border of a split) *)
+Theorem c12_exact root k lv ctr root' info ctr' :
+  WF_layer root -> kt_wf k = true -> ~ In k (bt_keys root) ->
+  entry_ok {| sl_key := k; sl_lv := lv |} ->
+  (forall i, In i (bt_ids root) -> (i < ctr)%N) ->
+  layer_put root k lv ctr = Some (root', info, ctr') ->
+  NoDup (leaf_ids root) /\ NoDup (leaf_ids root') /\
+  (forall i, In i (leaf_ids root) -> In i (leaf_ids root')) /\
+  (forall i, In i (leaf_ids root) ->
+     (leaf_ver_of root' i <> leaf_ver_of root i <-> i = pi_modified info)) /\
+  (forall i v, In (i, v) (leaf_versions root) ->
+     (In (i, v) (leaf_versions root') <-> i <> pi_modified info)) /\
+  (forall c, In c (leaf_ids root') /\ ~ In c (leaf_ids root) <-> pi_created info = Some c).
+Proof.
+  intros Hwfl Hk Hnin Hok Hctr E.
+  destruct (layer_put_spec root k lv ctr Hwfl Hk Hnin Hok Hctr) as (root2 & info2 & ctr2 & E2 & Hwfl' & _).
+  rewrite E in E2. injection E2 as <- <- <-.
+  pose proof (leaf_ids_NoDup root (proj2 Hwfl)) as Hnd.
+  pose proof (leaf_ids_NoDup root' (proj2 Hwfl')) as Hnd'.
+  destruct (c12_created_iff_split root k lv ctr root' info ctr' Hwfl Hk Hnin Hok Hctr E)
+    as (lm & lm' & A & B & F & HL & Hm & Hid & Hv & Hiff & Hc).
+  pose proof (c12_other_leaves_unchanged root k lv ctr root' info ctr' Hwfl Hk Hnin Hok Hctr E) as Hoth.
+  destruct (c12_modified_changes root k lv ctr root' info ctr' Hwfl Hk Hnin Hok Hctr E)
+    as (lm0 & lm0' & F0 & Hin0 & Hm0 & Hin0' & Hm0' & Hne0 & _).
+  (* the version lookup before and after *)
+  assert (forall i, In i (leaf_ids root) ->
+            (leaf_ver_of root' i <> leaf_ver_of root i <-> i = pi_modified info)) as P2.
+  { intros i Hi. unfold leaf_ids in Hi. apply in_map_iff in Hi. destruct Hi as (l & <- & Hl).
+    rewrite (leaf_ver_of_leaf root l Hnd Hl).
+    destruct (N.eq_dec (lf_id l) (pi_modified info)) as [Ei|Ni].
+    - assert (l = lm0) as ->.
+      { apply (map_NoDup_inj lf_id (bt_leaves root)); [exact Hnd|exact Hl|exact Hin0|congruence]. }
+      split; [intros _; exact Ei|intros _].
+      rewrite Hm0, <- Hm0'. rewrite (leaf_ver_of_leaf root' lm0' Hnd' Hin0').
+      intros X. injection X as X. contradiction.
+    - destruct (Hoth l Hl Ni) as [Hl' _].
+      rewrite (leaf_ver_of_leaf root' l Hnd' Hl').
+      split; [intros X; exfalso; apply X; reflexivity|intros X; contradiction]. }
+  split; [exact Hnd|]. split; [exact Hnd'|]. split.
+  { intros i Hi. unfold leaf_ids in *. apply in_map_iff in Hi. destruct Hi as (l & <- & Hl).
+    destruct (N.eq_dec (lf_id l) (pi_modified info)) as [Ei|Ni].
+    - rewrite Ei, <- Hm0'. apply in_map. exact Hin0'.
+    - apply in_map. apply (Hoth l Hl Ni). }
+  split; [exact P2|]. split.
+  { intros i v Hiv.
+    assert (In i (leaf_ids root)) as Hi.
+    { rewrite <- leaf_versions_ids. apply (in_map fst) in Hiv. exact Hiv. }
+    specialize (P2 i Hi).
+    apply (leaf_ver_of_spec root i v Hnd) in Hiv. rewrite Hiv in P2.
+    rewrite <- (leaf_ver_of_spec root' i v Hnd').
+    split.
+    - intros X Y. apply P2 in Y. apply Y. exact X.
+    - intros X. destruct (leaf_ver_of root' i) as [v'|] eqn:Ev.
+      + destruct (N.eq_dec v' v) as [->|Nv]; [reflexivity|].
+        exfalso. apply X. apply P2. intros Z. injection Z as Z. contradiction.
+      + exfalso. apply X. apply P2. discriminate. }
+  intros c. unfold leaf_ids in *.
+  destruct (pi_created info) as [c0|].
+  - destruct Hc as (_ & -> & Hnc & Hic & _ & cnew & Hidc & _ & HL').
+    split.
+    + intros [H1 H2]. rewrite HL' in H1. rewrite HL in H2.
+      rewrite map_app in H1, H2. cbn [map] in H1, H2. rewrite in_app_iff in H1, H2. cbn [In] in H1, H2.
+      destruct H1 as [H1|[H1|[H1|H1]]].
+      * exfalso. apply H2. left. exact H1.
+      * exfalso. apply H2. right. left. rewrite <- Hid. exact H1.
+      * rewrite <- H1, Hidc. reflexivity.
+      * exfalso. apply H2. right. right. exact H1.
+    + intros X. injection X as <-. split; assumption.
+  - destruct Hc as (_ & HL' & _).
+    split; [|discriminate].
+    intros [H1 H2]. exfalso. apply H2. rewrite HL' in H1. rewrite HL.
+    rewrite map_app in *. cbn [map] in *. rewrite Hid in H1. exact H1.
+Qed.
+
+(** ** 6. Overwrite: no border version changes *)
+
+Lemma bt_update_leaf_versions k f fuel : forall t,
+  (forall l, lf_id (f l) = lf_id l /\ lf_ver (f l) = lf_ver l) ->
+  leaf_versions (bt_update_leaf fuel t k f) = leaf_versions t.
+Proof.
+  induction fuel as [|fu IH]; intros t Hf; [reflexivity|].
+  destruct t as [l|id ver keys ch]; cbn [bt_update_leaf].
+  - unfold leaf_versions. cbn [bt_leaves map]. destruct (Hf l) as [-> ->]. reflexivity.
+  - cbv zeta. destruct (nth_error ch (route keys k 0)) as [c|] eqn:En; [|reflexivity].
+    assert (route keys k 0 < length ch)%nat as Hi by (apply nth_error_Some; congruence).
+    rewrite !leaf_versions_int. rewrite flat_map_set_nth by exact Hi.
+    rewrite (flat_map_split leaf_versions dbt ch _ Hi).
+    rewrite (nth_error_nth ch _ dbt En). rewrite (IH c Hf). reflexivity.
+Qed.
+
+(** the value overwrite of [put_walk] / [layer_update_spec] (for any slot and any
+    new slot contents) leaves every border's (id, version) pair as it was *)
+Theorem c12_overwrite_silent root k slot x :
+  leaf_versions (update_leaf root k (fun l0 =>
+                   leaf_with l0 (lf_ver l0) (lf_perm l0)
+                             (set_nth (N.to_nat slot) x (lf_slots l0)))) =
+  leaf_versions root.
+Proof.
+  unfold update_leaf. apply bt_update_leaf_versions. intros l. split; reflexivity.
+Qed.
+
+(** ** 7. Delete: the leaves that stay keep their version words *)
+
+Theorem c12_delete_keeps_versions k fuel : forall t t' ret,
+  bt_delete fuel t k = Some (DKept t', ret) ->
+  incl (leaf_versions t') (leaf_versions t).
+Proof.
+  induction fuel as [|fu IH]; intros t t' ret E; [discriminate|].
+  destruct t as [l|id ver keys ch]; cbn [bt_delete] in E.
+  - destruct (leaf_lookup l k) as [[[rank slot] s]|]; [|discriminate].
+    cbv zeta in E. destruct (leaf_cnk l =? 1)%N; [discriminate|]. injection E as <- <-.
+    unfold leaf_versions. cbn [bt_leaves map]. rewrite leaf_delete_id, leaf_delete_ver.
+    apply incl_refl.
+  - cbv zeta in E. set (i := route keys k 0) in *.
+    destruct (nth_error ch i) as [c|] eqn:En; [|discriminate].
+    assert (i < length ch)%nat as Hi by (apply nth_error_Some; congruence).
+    destruct (bt_delete fu c k) as [[[c'|] ret0]|] eqn:Ed; [| |discriminate].
+    + injection E as <- <-. rewrite !leaf_versions_int, flat_map_set_nth by exact Hi.
+      rewrite (flat_map_split leaf_versions dbt ch i Hi).
+      apply incl_app_app; [apply incl_refl|]. apply incl_app_app; [|apply incl_refl].
+      rewrite (nth_error_nth ch i dbt En). eapply IH. exact Ed.
+    + destruct (Nat.eqb (length keys) 1).
+      * destruct (nth_error ch (1 - i)) as [sib|] eqn:Es; [|discriminate]. injection E as <- <-.
+        rewrite leaf_versions_int. intros y Hy. apply in_flat_map. exists sib.
+        split; [eapply nth_error_In; exact Es|exact Hy].
+      * injection E as <- <-. rewrite !leaf_versions_int. unfold remove_nth.
+        rewrite flat_map_remove_at. rewrite (flat_map_split leaf_versions dbt ch i Hi).
+        apply incl_app_app; [apply incl_refl|]. apply incl_appr. apply incl_refl.
+Qed.
+
+(** ** sanity: the hypotheses are satisfiable, and the statements are what the
+    executable model computes -- plain insert, border split below an interior
+    node, and a border split that splits the interior root as well *)
+Module VersionReportExample.
+  Local Open Scope N_scope.
+  Definition kk (i : N) : ktuple := {| ks := i; kl := 8 |}.
+  Definition vv (i : N) : lvw := LValue {| v_id := i; v_bytes := []; v_align := 8; v_inline := false |}.
+  Definition kvs (n : nat) : list (ktuple * lvw) :=
+    map (fun i => (kk (N.of_nat i), vv (N.of_nat i))) (seq 2 n).
+  Definition root0 : bt := BLeaf (single_leaf 1 (kk 1) (vv 1)).
+  Definition tn (n : nat) : bt :=
+    match put_all root0 2 (kvs n) with Some (t, _) => t | None => root0 end.
+  (* 39 ascending keys: leaves of 8, 8, 8, 15 entries under one interior node *)
+  Definition t39 : bt := tn 38.
+  (* 135 keys: 15 leaves of 8 and one of 15 under a full interior root *)
+  Definition t135 : bt := tn 134.
+
+  (* ids of old leaves whose version word differs / leaf ids that are new *)
+  Definition ver_diff (t t' : bt) : list N :=
+    filter (fun i => match leaf_ver_of t i, leaf_ver_of t' i with
+                     | Some a, Some b => negb (a =? b)
+                     | _, _ => true
+                     end) (leaf_ids t).
+  Definition new_ids (t t' : bt) : list N :=
+    filter (fun c => negb (existsb (N.eqb c) (leaf_ids t))) (leaf_ids t').
+  Definition report (t : bt) (k : ktuple) (ctr : N) :=
+    match layer_put t k (vv 1000) ctr with
+    | Some (t', info, c') =>
+      Some (info, ver_diff t t', new_ids t t', length (bt_leaves t), length (bt_leaves t'),
+            bt_height t, bt_height t', c')
+    | None => None
+    end.
+
+  Example t39_shape : map leaf_cnk (bt_leaves t39) = [8; 8; 8; 15] /\ bt_height t39 = 1%nat.
+  Proof. vm_compute. split; reflexivity. Qed.
+
+  (* plain insert into the first leaf: only that leaf's version changes *)
+  Example t39_plain :
+    report t39 (kk 0) 500 =
+    Some ({| pi_modified := 1; pi_created := None |}, [1], [], 4%nat, 4%nat, 1%nat, 1%nat, 501).
+  Proof. vm_compute. reflexivity. Qed.
+
+  (* insert into the full last leaf: it splits, the new border has id ctr
+     (the id counter also advances past the id reserved for an interior sibling) *)
+  Example t39_split :
+    match report t39 (kk 1000) 500 with
+    | Some (info, d, n, l0, l1, h0, h1, c') =>
+      pi_created info = Some 500 /\ d = [pi_modified info] /\ n = [500] /\
+      l0 = 4%nat /\ l1 = 5%nat /\ h0 = 1%nat /\ h1 = 1%nat /\ c' = 502
+    | None => False
+    end.
+  Proof. vm_compute. repeat split; reflexivity. Qed.
+
+  Example t135_shape :
+    length (bt_leaves t135) = 16%nat /\ leaf_cnk (last (bt_leaves t135) dleaf) = 15 /\
+    bt_height t135 = 1%nat.
+  Proof. vm_compute. repeat split; reflexivity. Qed.
+
+  (* border split + interior split + new root: still exactly one changed and one new border *)
+  Example t135_split :
+    match report t135 (kk 1000) 500 with
+    | Some (info, d, n, l0, l1, h0, h1, c') =>
+      pi_created info = Some 500 /\ d = [pi_modified info] /\ n = [500] /\
+      l0 = 16%nat /\ l1 = 17%nat /\ h0 = 1%nat /\ h1 = 2%nat /\ c' = 503
+    | None => False
+    end.
+  Proof. vm_compute. repeat split; reflexivity. Qed.
+
+  (* the hypotheses of the theorems hold for t39 and the two inserts above *)
+  Lemma t39_WF : WF_layer t39 /\ (forall i, In i (bt_ids t39) -> i < 500).
+  Proof.
+    assert (entry_ok {| sl_key := kk 1; sl_lv := vv 1 |}) as Hok0
+      by (split; [vm_compute; reflexivity|cbn; lia]).
+    destruct (single_leaf_WF_layer 1 (kk 1) (vv 1) Hok0) as (H1 & H2 & H3). fold root0 in H1, H2, H3.
+    destruct (put_all_spec (kvs 38) root0 2 H1) as (t' & c' & E & Hwf & Hlt & _).
+    - rewrite H3. intros i [<-|[]]. lia.
+    - let e := eval vm_compute in (kvs 38) in change (kvs 38) with e.
+      repeat (apply Forall_cons; [split; [vm_compute; reflexivity|split; [vm_compute; reflexivity|cbn; lia]]|]).
+      apply Forall_nil.
+    - apply LayerExample.nodupb_sound. vm_compute. reflexivity.
+    - intros k Hk X. unfold bt_keys in X. rewrite H2 in X. cbn [map sl_key In] in X.
+      destruct X as [<-|[]]. revert Hk. apply LayerExample.existsb_kt_eq_false. vm_compute. reflexivity.
+    - unfold t39, tn. rewrite E. split; [exact Hwf|].
+      intros i Hi. apply Hlt in Hi.
+      assert (option_map snd (put_all root0 2 (kvs 38)) = Some 43) as X by (vm_compute; reflexivity).
+      rewrite E in X. cbn [option_map snd] in X. injection X as ->. lia.
+  Qed.
+
+  Lemma kk_fresh i : (39 < i)%N \/ i = 0 -> ~ In (kk i) (bt_keys t39).
+  Proof.
+    intros Hi X.
+    assert (forall t, In t (bt_keys t39) -> 1 <= ks t <= 39) as Hr.
+    { apply Forall_forall. let e := eval vm_compute in (bt_keys t39) in change (bt_keys t39) with e.
+      repeat (apply Forall_cons; [cbn [ks]; lia|]). apply Forall_nil. }
+    apply Hr in X. cbn [ks kk] in X. lia.
+  Qed.
+
+  Example t39_theorem_applies :
+    exists root' info ctr',
+      layer_put t39 (kk 1000) (vv 1000) 500 = Some (root', info, ctr') /\
+      pi_created info = Some 500 /\
+      (forall i, In i (leaf_ids t39) ->
+         (leaf_ver_of root' i <> leaf_ver_of t39 i <-> i = pi_modified info)) /\
+      (forall c, In c (leaf_ids root') /\ ~ In c (leaf_ids t39) <-> c = 500).
+  Proof.
+    destruct t39_WF as [Hwf Hlt].
+    assert (kt_wf (kk 1000) = true) as Hk by (vm_compute; reflexivity).
+    assert (entry_ok {| sl_key := kk 1000; sl_lv := vv 1000 |}) as Hok
+      by (split; [vm_compute; reflexivity|cbn; lia]).
+    assert (~ In (kk 1000) (bt_keys t39)) as Hnin by (apply kk_fresh; lia).
+    destruct (layer_put_spec t39 (kk 1000) (vv 1000) 500 Hwf Hk Hnin Hok Hlt)
+      as (root' & info & ctr' & E & _).
+    exists root', info, ctr'. split; [exact E|].
+    destruct (c12_exact t39 (kk 1000) (vv 1000) 500 root' info ctr' Hwf Hk Hnin Hok Hlt E)
+      as (_ & _ & _ & P2 & _ & P4).
+    assert (pi_created info = Some 500) as Hc.
+    { assert (option_map (fun x => pi_created (snd (fst x))) (layer_put t39 (kk 1000) (vv 1000) 500)
+              = Some (Some 500)) as X by (vm_compute; reflexivity).
+      rewrite E in X. cbn in X. injection X as X. exact X. }
+    split; [exact Hc|]. split; [exact P2|].
+    intros c. rewrite (P4 c), Hc. split; [intros X; injection X as <-; reflexivity|intros ->; reflexivity].
+  Qed.
+End VersionReportExample.
+
+(** ** axiom audit *)
+Print Assumptions leaf_put_report.
+Print Assumptions bt_put_leaves.
+Print Assumptions c12_other_leaves_unchanged.
+Print Assumptions c12_modified_changes.
+Print Assumptions c12_created_iff_split.
+Print Assumptions c12_exact.
+Print Assumptions c12_overwrite_silent.
+Print Assumptions c12_delete_keeps_versions.
+Print Assumptions VersionReportExample.t39_theorem_applies.
